@@ -171,7 +171,7 @@ def _case_value(prog, ent, case_name, case):
     opaque = list(ent.get("opaque", ()))
     if ent.get("opaque_prefix"):
         opaque += [q for q in A.Evaluator(prog).by_path if q.startswith(ent["opaque_prefix"])]
-    ev = A.Evaluator(prog, presets=presets, type_alias=ent.get("alias", {}), watch=(ent.get("watch", "-"),), opaque=opaque, name_case=name_case, transparent=ent.get("transparent", ("fstr",)), iflet=(case.get("iflet") if isinstance(case, dict) else None) or ent.get("iflet"), absent=(case.get("absent", ()) if isinstance(case, dict) else ()))
+    ev = A.Evaluator(prog, presets=presets, type_alias=ent.get("alias", {}), watch=(ent.get("watch", "-"),), opaque=opaque, name_case=name_case, transparent=ent.get("transparent", ("fstr",)), iflet=(case.get("iflet") if isinstance(case, dict) else None) or ent.get("iflet"), absent=(case.get("absent", ()) if isinstance(case, dict) else ()), present=(case.get("present") if isinstance(case, dict) else None))
     h = ev.by_path.get(ent["function"])
     argv = None
     if isinstance(case, dict) and case.get("args"):
@@ -187,7 +187,20 @@ def _case_value(prog, ent, case_name, case):
                 argv.append(("obj", v))
             else:
                 argv.append(("obj", f"${k}"))
-    summ = ev.summary(ent["function"], args=argv)
+    self_value = None
+    if isinstance(case, dict) and case.get("self"):
+        fields = {}
+        for k, v in case["self"].items():
+            if v == "none":
+                fields[k] = ("none",)
+            elif isinstance(v, str) and v.startswith("some:"):
+                fields[k] = ("some", A.ref(v[5:]))
+            elif isinstance(v, str) and v.startswith("str:"):
+                fields[k] = ("str", v[4:])
+            else:
+                fields[k] = A.ref(v)
+        self_value = ("struct", fields)
+    summ = ev.summary(ent["function"], self_value=self_value, args=argv)
     if "ret" in ent:
         r = summ["ret"] if summ else None
         if ent["ret"] == "all":
